@@ -147,6 +147,12 @@ def _kf_drop_aggregate(family, case, disc):
     d = disc.detail if isinstance(disc.detail, dict) else {}
     if not (case["spec"].get("drop_invalid_rows") and _aggregate_checks(case["spec"])):
         return False
+    if family == "polars" and disc.kind in ("revalidation-changes-result", "revalidation-crashes:ShapeError"):
+        # polars: on the second pass the aggregate check fails with a 1-row check output, which drop_invalid_rows
+        # broadcasts over (or cannot align with) the frame
+        first = d.get("first") or {}
+        n_first = len(next(iter((first.get("cells") or {}).values()), []))
+        return n_first < sp.table_nrows(case["table"]) or disc.kind.startswith("revalidation-crashes")
     reasons = set(disc.kind.split(":")[-1].split("+"))
     if reasons != {"DATAFRAME_CHECK"}:
         return False
@@ -164,6 +170,16 @@ def _kf_drop_aggregate(family, case, disc):
     return False
 
 
+@known.finding("C03/add_missing_columns-insert-position-ignores-regex-columns")
+def _kf_add_missing_regex_order(family, case, disc):
+    spec = case["spec"]
+    if not (family == "pandas" and spec.get("add_missing_columns") and spec.get("ordered")
+            and any(c.get("regex") for c in spec.get("columns", []))):
+        return False
+    return disc.kind in ("returned-object-violates-reference:COLUMN_NOT_ORDERED", "returned-object-violates-schema:COLUMN_NOT_ORDERED",
+                         "revalidation-of-result-rejected:COLUMN_NOT_ORDERED")
+
+
 FAMILIES = [
     Family("pandas", evaluate, strategy=lambda: gen.parser_case(), n_quick=500, n_thorough=4000, shards_quick=4,
            shards_thorough=16,
@@ -175,7 +191,7 @@ from . import plx  # noqa: E402
 
 FAMILIES.append(
     Family("polars", plx.eval_c03,
-           strategy=lambda: plx.strat_case(parsers="many", containers=("df", "df", "lf_full"), drop_rate=2),
+           strategy=lambda: plx.strat_case(parsers="many", containers=("df", "df", "lf_full"), drop_rate=2, regex_rate=2),
            n_quick=350, n_thorough=3000, shards_quick=3, shards_thorough=12,
            required_labels=["container=lf_full", "outcome=ok", "result-differs-from-input", "op=coerce", "op=default",
                             "op=add_missing"]))
